@@ -14,7 +14,7 @@
      Ack(w)             the call returns to the client: after a commit the revision id, after a callback error the
                         release-on-error block of updateAndReturnDoc runs and the error is returned
      Quiesce            every writer has returned; the changes feed is read
-   Named deviations of the transcribed code from the ideal CAS loop (each adds its name to `dev` when it fires):
+   Named deviations of the transcribed code from the ideal CAS loop (each adds <<name, writer>> to `dev` when it fires):
      ErrDropsUnused    an error return of documentUpdateFunc hands nil back for unusedSequences (candidate F2, C07)
      ResurrectNoCas    a writer that READ a tombstone and writes a live document goes through
                        WriteResurrectionWithXattrs, which carries no CAS: if the document is still a tombstone the write
@@ -43,10 +43,11 @@ VARIABLES
                                             \*   sequence, unused_sequences, recent_sequences            (observable)
   last, released,                           \* sequence allocator: last sequence handed out; sequences published as unused (observable)
   pc, res, kind, parg,                      \* per writer: control state, returned value, inputs          (observable)
-  match, att, loc, dso, uo, dropped, dev, top,   \* per writer locals: Put's captured matchRev, attempts, computed document,
+  match, att, loc, dso, uo, dropped, dev, top, lost, backIdx,  \* per writer locals: Put's captured matchRev, attempts, computed document,
                                             \*   updateAndReturnDoc's docSequence / unusedSequences; sequences lost by ErrDropsUnused;
                                             \*   names of the deviations that fired in this behaviour; the commit with the highest sequence so
-                                            \*   far [seq, rev] - what the change cache keeps for the document   (hidden)
+                                            \*   far [seq, rev] - what the change cache keeps for the document; revisions overwritten by a
+                                            \*   ResurrectNoCas write and the positions in docSeqs of those writes   (hidden)
   feed, quiesced,                           \* changes feed for the document read after quiescence         (observable)
   docSeqs, onDoc, initSeq,                  \* ghosts: document sequence after every change of cas; sequences ever carried by
                                             \*   the document (sequence or unused_sequences); sequences of the initial revisions
@@ -56,7 +57,7 @@ conf   == <<allow, initLen, initTomb, ws>>
 bucket == <<cas, tree, cur, seq, unused, recent>>
 alloc  == <<last, released>>
 obsw   == <<pc, res, kind, parg>>
-hidden == <<match, att, loc, dso, uo, dropped, dev, top>>
+hidden == <<match, att, loc, dso, uo, dropped, dev, top, lost, backIdx>>
 fd     == <<feed, quiesced>>
 ghost  == <<docSeqs, onDoc, initSeq>>
 impl   == <<bucket, alloc, obsw, hidden, fd>>
@@ -97,7 +98,7 @@ Init ==
   /\ pc = [w \in Writers |-> "idle"] /\ res = [w \in Writers |-> NoRes]
   /\ kind = [w \in Writers |-> ""] /\ parg = [w \in Writers |-> 0]
   /\ match = [w \in Writers |-> 0] /\ att = [w \in Writers |-> 0] /\ loc = [w \in Writers |-> NoLoc]
-  /\ dso = [w \in Writers |-> 0] /\ uo = [w \in Writers |-> <<>>] /\ dropped = {} /\ dev = {} /\ top = [seq |-> initLen, rev |-> initLen]
+  /\ dso = [w \in Writers |-> 0] /\ uo = [w \in Writers |-> <<>>] /\ dropped = {} /\ dev = {} /\ top = [seq |-> initLen, rev |-> initLen] /\ lost = {} /\ backIdx = {}
   /\ feed = <<>> /\ quiesced = FALSE
   /\ docSeqs = <<>> /\ onDoc = 1..initLen /\ initSeq = [i \in 1..initLen |-> i]
   /\ hist = <<>>
@@ -131,7 +132,7 @@ ImplCompute(w) ==
   IF cb.err
   THEN /\ pc' = [pc EXCEPT ![w] = "failed"] /\ match' = [match EXCEPT ![w] = cb.m]
        /\ uo' = [uo EXCEPT ![w] = <<>>] /\ dropped' = dropped \cup Range(uo[w])
-       /\ dev' = (IF uo[w] # <<>> THEN dev \cup {"ErrDropsUnused"} ELSE dev)
+       /\ dev' = (IF uo[w] # <<>> THEN dev \cup {<<"ErrDropsUnused", w>>} ELSE dev)
        /\ UNCHANGED <<loc, dso, last>>
   ELSE LET nt    == AddRev(tree, W(w), cb.par, Deleted(w))
            reuse == dso[w] > seq
@@ -150,12 +151,12 @@ ImplCompute(w) ==
 ImplBegin(w, k, p) ==
   /\ kind' = [kind EXCEPT ![w] = k] /\ parg' = [parg EXCEPT ![w] = p] /\ match' = [match EXCEPT ![w] = p]
   /\ pc' = [pc EXCEPT ![w] = "begun"]
-  /\ UNCHANGED <<bucket, alloc, res, att, loc, dso, uo, dropped, dev, top, fd>>
+  /\ UNCHANGED <<bucket, alloc, res, att, loc, dso, uo, dropped, dev, top, lost, backIdx, fd>>
 
 ImplReadAndCompute(w) ==
   /\ att' = [att EXCEPT ![w] = 1]
   /\ ImplCompute(w)
-  /\ UNCHANGED <<bucket, released, res, kind, parg, top, fd>>
+  /\ UNCHANGED <<bucket, released, res, kind, parg, top, lost, backIdx, fd>>
 
 Commit(w) ==
   /\ cas' = cas + 1 /\ tree' = loc[w].tree /\ cur' = loc[w].cur /\ seq' = loc[w].seq
@@ -165,16 +166,17 @@ Commit(w) ==
   /\ UNCHANGED <<alloc, res, kind, parg, match, att, loc, dso, uo, dropped, fd>>
 ImplCasWrite(w) ==
   LET nowTomb == cas > 0 /\ tree[cur].d IN
-  IF cas = loc[w].casRead THEN Commit(w) /\ UNCHANGED dev
+  IF cas = loc[w].casRead THEN Commit(w) /\ UNCHANGED <<dev, lost, backIdx>>
   ELSE IF loc[w].readTomb /\ ~loc[w].tomb /\ nowTomb
-       THEN Commit(w) /\ dev' = dev \cup {"ResurrectNoCas"}                       \* WriteResurrectionWithXattrs: no CAS
+       THEN /\ Commit(w) /\ dev' = dev \cup {<<"ResurrectNoCas", w>>}             \* WriteResurrectionWithXattrs: no CAS
+            /\ lost' = lost \cup (DOMAIN tree \ DOMAIN loc[w].tree) /\ backIdx' = backIdx \cup {Len(docSeqs) + 1}
   ELSE IF loc[w].readLive /\ loc[w].tomb /\ nowTomb
-       THEN /\ pc' = [pc EXCEPT ![w] = "errored"] /\ dev' = dev \cup {"DeleteRaceError"}   \* Rosmar: MissingError, not retried;
+       THEN /\ pc' = [pc EXCEPT ![w] = "errored"] /\ dev' = dev \cup {<<"DeleteRaceError", w>>}   \* Rosmar: MissingError, not retried;
             /\ released' = released \cup ({dso[w]} \ {0}) \cup Range(uo[w])              \*   the call returns through the release-on-error block
-            /\ UNCHANGED <<bucket, last, res, kind, parg, match, att, loc, dso, uo, dropped, top, fd>>
+            /\ UNCHANGED <<bucket, last, res, kind, parg, match, att, loc, dso, uo, dropped, top, lost, backIdx, fd>>
   ELSE /\ att' = [att EXCEPT ![w] = att[w] + 1]
        /\ ImplCompute(w)
-       /\ UNCHANGED <<bucket, released, res, kind, parg, top, fd>>
+       /\ UNCHANGED <<bucket, released, res, kind, parg, top, lost, backIdx, fd>>
 
 ImplAck(w) ==
   /\ IF pc[w] = "committed"
@@ -189,7 +191,9 @@ ImplAck(w) ==
   /\ UNCHANGED <<bucket, last, kind, parg, hidden, fd>>
 
 ImplQuiesce ==
-  /\ feed' = (IF cas = 0 THEN <<>> ELSE <<top>>)      \* the cache keeps, per document, the change with the highest sequence
+  /\ feed' \in (IF cas = 0 THEN {<<>>} ELSE {<<top>>, <<[seq |-> seq, rev |-> cur]>>})
+       \* the cache keeps, per document, the change with the highest sequence it was shown (the same entry unless a write
+       \* stepped the sequence backwards; then it depends on whether the mutation feed still delivered the overwritten one)
   /\ quiesced' = TRUE
   /\ UNCHANGED <<bucket, alloc, obsw, hidden>>
 
@@ -259,7 +263,7 @@ TypeOK ==
   /\ cas \in Nat /\ seq \in Nat /\ last \in Nat /\ cur \in DOMAIN tree \cup {0}
   /\ \A w \in Writers : pc[w] \in {"idle", "begun", "computed", "failed", "errored", "committed", "done"} /\ att[w] <= Cardinality(Writers)
 SeqSane ==
-  /\ seq <= last /\ \A u \in unused : u < seq
+  /\ seq <= last /\ (backIdx = {} => \A u \in unused : u < seq)
   /\ (cas > 0 => seq \in recent /\ unused \subseteq recent)
   /\ released \cap onDoc = {} /\ released \subseteq 1..last
 NotYetWritten == \A w \in Writers : pc[w] \in {"idle", "begun", "computed", "failed", "errored"} => W(w) \notin DOMAIN tree
@@ -267,19 +271,35 @@ CurIsWinner == cur \in Winners(tree)
 (* C07's accounting, shared: at quiescence every reserved sequence is carried by the document, listed as unused on it,
    or released - EXCEPT those lost through the named deviation ErrDropsUnused (candidate F2, reported under C07) *)
 Leaked == (1..last) \ (onDoc \cup released)
-AccountedModuloDrop == quiesced => Leaked \subseteq dropped
+AccountedModuloDrop == (quiesced /\ backIdx = {}) => Leaked \subseteq dropped
 SequencesAccounted  == quiesced => Leaked = {}          \* NOT an invariant of the transcription (F2)
 
-(* What the exhaustive run establishes for the transcription: the property holds in every behaviour in which the
-   named deviation that can break it did not fire.  Behaviours in which one fires are replayed on the real code,
-   where pass P evaluates the unguarded predicates above. *)
-NoResurrect == "ResurrectNoCas" \notin dev
-M_NoLostAck            == NoResurrect => NoLostAck
-M_OwnSequence          == NoResurrect => OwnSequence
-M_OneChildPerParent    == NoResurrect => OneChildPerParent
-M_LosersLeaveNoTrace   == NoResurrect => LosersLeaveNoTrace
-M_RefusalsAreConflicts == ("DeleteRaceError" \notin dev) => RefusalsAreConflicts
-M_FeedAnnouncesFinal   == NoResurrect => FeedAnnouncesFinal
-M_SeqSane              == NoResurrect => SeqSane
-M_Accounted            == NoResurrect => AccountedModuloDrop
+(* What the exhaustive run establishes for the transcription, and what pass C checks on real runs: the property with
+   exactly the exceptions the named deviations explain - an acknowledged revision may be missing only if a
+   ResurrectNoCas write overwrote it (`lost`), the document sequence may step backwards only at such a write
+   (`backIdx`), a refusal may be a non-conflict error only for a writer that took the DeleteRaceError path, and the feed
+   announces the commit with the highest sequence (`top`), which is the final revision unless a write stepped backwards.
+   With no deviation X_P is P.  The unrelaxed predicates are what pass P evaluates on the recorded real state. *)
+Devs(n) == {d[2] : d \in {e \in dev : e[1] = n}}
+AckedLive == {w \in Acked : res[w].rev \notin lost}
+X_NoLostAck == \A w \in Acked : res[w].rev \in DOMAIN tree \cup lost
+X_OwnSequence ==
+  /\ \A w \in Acked : res[w].seq > 0 /\ \A i \in DOMAIN initSeq : initSeq[i] # res[w].seq
+  /\ \A w1, w2 \in Acked : w1 # w2 => res[w1].seq # res[w2].seq
+  /\ \A w \in Acked : res[w].rev \in DOMAIN tree =>
+        LET p == tree[res[w].rev].p IN (p # 0 /\ RevSeqKnown(p)) => res[w].seq > RevSeq(p)
+  /\ \A i \in (1..Len(docSeqs)) \ backIdx :
+        docSeqs[i] > (IF i = 1 THEN (IF initLen = 0 THEN 0 ELSE initSeq[initLen]) ELSE docSeqs[i - 1])
+X_OneChildPerParent ==
+  ~allow =>
+    /\ \A w1, w2 \in AckedLive : w1 # w2 => ParentOf(w1) # ParentOf(w2)
+    /\ IsChain(tree)
+    /\ Cardinality(DOMAIN tree) >= initLen + Cardinality(AckedLive)
+    /\ quiesced => Cardinality(DOMAIN tree) = initLen + Cardinality(AckedLive)
+X_RefusalsAreConflicts == \A w \in Writers : res[w].cls \in {"none", "ok", "conflict"} \/ (res[w].cls = "error" /\ w \in Devs("DeleteRaceError"))
+X_FeedAnnouncesFinal == quiesced => IF cas = 0 THEN feed = <<>> ELSE feed # <<>> /\ feed[Len(feed)] \in {top, [seq |-> seq, rev |-> cur]}
+X_FeedIsFinalUnlessBackwards == (backIdx = {}) => FeedAnnouncesFinal
+DevSane == /\ (Devs("ResurrectNoCas") = {} => lost = {} /\ backIdx = {})
+           /\ (lost = {} /\ backIdx = {} /\ Devs("DeleteRaceError") = {}) =>
+                 (NoLostAck /\ OwnSequence /\ OneChildPerParent /\ RefusalsAreConflicts /\ FeedAnnouncesFinal)
 =============================================================================
